@@ -9,8 +9,10 @@ import (
 )
 
 // C13: generated encoders — "the number of bytes written equals the announced length, every write in bounds".
-// Hand-written instance for one small model (MetaInfo); the schema proposal that generalises the
-// safety part to every generated encoder is in encoders.schema (see the report).
+// The contracts of ALL generated encoders (Init / EncodeInto / Encode) are derived from the encoders' own bodies and live
+// in zz_verif_c13gen.go (gcv c13gen). This file keeps the one hand-written, from-the-TLV-layout length specification
+// (MetaInfo) as a cross-check of the derived one: lemmaMetaInfoLen proves that the length Init announces (c13Len_MetaInfo,
+// read off Init's body) is the size of the TLV layout written down here from the format definition.
 //
 // The spec functions are written from the TLV layout in definitions.go
 //   MetaInfo ::= [ContentType 0x18 natural] [FreshnessPeriod 0x19 time(ms, natural)] [FinalBlockId 0x1a binary]
@@ -60,25 +62,15 @@ func specMetaInfoLen(v *MetaInfo) int {
 // A-MEM: a byte slice in memory is shorter than 2^48 bytes.
 func specFits(b []byte) bool { return len(b) <= 281474976710656 }
 
-//@ func (*MetaInfoEncoder).Init
-//@   requires value != nil
-//@   assume specFits(value.FinalBlockID)
-//@   modifies encoder.length
-//@   ensures [announced] int(encoder.length) == specMetaInfoLen(value) && encoder.length <= 281474976710700
-
-// EncodeInto: given a buffer of exactly the announced length, every write is in bounds (all #idx/#slice
-// obligations) and the three TLVs are laid out back to back, the last one ending exactly at len(buf):
-// bytes written == announced length.
+// The announced length of a MetaInfo (derived from the body of the generated Init, zz_verif_c13gen.go) is the size of the
+// TLV layout specified above (A-MEM for the one byte string).
 //
-//@ func (*MetaInfoEncoder).EncodeInto
-//@   requires value != nil && len(buf) == int(encoder.length) && int(encoder.length) == specMetaInfoLen(value)
-//@   requires specFits(value.FinalBlockID) && sliceArr(buf) != sliceArr(value.FinalBlockID)
-//@   modifies buf[*]
-//@   ensures [ct] value.ContentType != nil ==> buf[0] == 24 && int(buf[1]) == specNatLen(*value.ContentType) && enc.specNatVal(buf, 2, specNatLen(*value.ContentType)) == *value.ContentType
-//@   ensures [fp] value.FreshnessPeriod != nil ==> buf[specOptNatLen(value.ContentType)] == 25 && int(buf[specOptNatLen(value.ContentType)+1]) == specNatLen(uint64(*value.FreshnessPeriod/time.Millisecond)) && enc.specNatVal(buf, specOptNatLen(value.ContentType)+2, specNatLen(uint64(*value.FreshnessPeriod/time.Millisecond))) == uint64(*value.FreshnessPeriod/time.Millisecond)
-//@   ensures [fb] value.FinalBlockID != nil ==> buf[specOptNatLen(value.ContentType)+specOptTimeLen(value.FreshnessPeriod)] == 26 && enc.SpecTLVal(buf, specOptNatLen(value.ContentType)+specOptTimeLen(value.FreshnessPeriod)+1) == uint64(len(value.FinalBlockID)) && enc.SpecTLSize(buf, specOptNatLen(value.ContentType)+specOptTimeLen(value.FreshnessPeriod)+1) == enc.SpecTLLen(uint64(len(value.FinalBlockID)))
-//@   ensures [fbv] value.FinalBlockID != nil ==> bytesAt(buf, len(buf)-len(value.FinalBlockID), value.FinalBlockID)
+//@ func lemmaMetaInfoLen
+//@   requires value != nil && encoder != nil && specFits(value.FinalBlockID)
+//@   ensures int(c13Len_MetaInfo(encoder, value)) == specMetaInfoLen(value)
+func lemmaMetaInfoLen(encoder *MetaInfoEncoder, value *MetaInfo) {}
 
-//@ func (*MetaInfoEncoder).Encode
-//@   requires value != nil && int(encoder.length) == specMetaInfoLen(value) && encoder.length <= 281474976710700 && specFits(value.FinalBlockID)
-//@   ensures len(result) == 1 && len(result[0]) == specMetaInfoLen(value) && fresh(result) && fresh(result[0])
+// (The byte-layout postconditions of an earlier hand-written EncodeInto contract for MetaInfo - type bytes, shortest-form
+// lengths and values at the offsets given by the functions above - needed about 100 s of solver time each and were never
+// claimed; the derived contract states bounds and the final write position for every model instead. Layout, i.e. the
+// decode(encode(v)) == v half of C13, remains undecided.)
